@@ -1,4 +1,4 @@
-import ActixNet.Lemmas.SrvSound
+import ActixNet.Lemmas.SrvSpin
 /-!
 # C08 — a faulted worker is detected, bypassed and replaced; its connection is re-routed
 
@@ -130,6 +130,13 @@ theorem accept_thread_never_panics (cfg : Cfg) (ok : CfgOk cfg) (kinds : List Ki
     (run cfg (init cfg kinds) ops).fault ≠ some .panicRem ∧
     (run cfg (init cfg kinds) ops).fault ≠ some .panicOffset :=
   (run_np ok ops _ (init_np cfg kinds)).nopanic
+
+/-- **`accept_one` never spins** — for EVERY history (same quantifier as above): its search for an
+available worker handle terminates; the failure mode of the stale-notification defect (all handles
+unavailable while a bit without a handle stays set) is unreachable. -/
+theorem accept_one_never_spins (cfg : Cfg) (ok : CfgOk cfg) (kinds : List Kind) (ops : List Op) :
+    (run cfg (init cfg kinds) ops).fault ≠ some .spinAcceptOne :=
+  run_nospinAO ok ops _ (init_np cfg kinds) (by unfold NoSpinAO; simp [init])
 
 /-- in every reachable state every set availability bit belongs to a worker that has a handle (so
 `accept_one`'s search always finds it) — the invariant whose violation was the defect fixed in /repo -/
